@@ -284,9 +284,20 @@ pub struct Ev {
     pub attacks: usize,
     /// fault injected (as opposed to a persistent configuration refusal)
     pub injected: bool,
+    /// refused because the universe's configuration says this kernel feature does not exist
+    pub config_refusal: bool,
 }
 
 impl Ev {
+    /// Was the call executed by the kernel (by the caller itself, or by the
+    /// supervisor on its behalf), as opposed to refused or faked?
+    pub fn executed(&self) -> bool {
+        match self.answer {
+            Answer::Continue => true,
+            Answer::Value(_) | Answer::Fail(_) => self.nr == libc::SYS_openat2 && !self.injected && !self.config_refusal,
+            Answer::Block => false,
+        }
+    }
     pub fn name(&self) -> &'static str {
         seam::sysname(self.nr)
     }
@@ -806,6 +817,7 @@ impl Universe {
             answer: Answer::Continue,
             attacks: 0,
             injected: false,
+            config_refusal: false,
         };
         unsafe {
             match nr {
@@ -1305,6 +1317,7 @@ impl Universe {
                     MountApi::Ok => {}
                 }
             }
+            let config_refusal = answer != Answer::Continue;
             let mut fault: Option<Fault> = None;
             if in_lib && answer == Answer::Continue {
                 if nr == libc::SYS_openat2 {
@@ -1474,6 +1487,7 @@ impl Universe {
             }
             ev.answer = answer.clone();
             ev.injected = injected;
+            ev.config_refusal = config_refusal;
 
             // ---- bookkeeping for labels: remember creations
             if answer == Answer::Continue {
